@@ -23,7 +23,9 @@ RULE = (
     "product of edge arrays x closed side x weights on/off x object layouts "
     "(single probe + out-of-range filler patch; every ordered pair of alphabet values "
     "in patches 0/1; the whole alphabet at once); the redshift alphabet holds each edge, "
-    "its two float neighbours, bin centres and far-outside values. Non-trivial: a "
+    "its two float neighbours, bin centres and far-outside values; generated equal-width binnings (np.linspace edges: 9 bins on "
+    "[0.1,1], 30 bins on [0.01,3]) with single probes and the whole alphabet; the whole alphabet also with the consumers "
+    "running on a 2-worker virtual pool (binning pickled to the workers). Non-trivial: a "
     "redshift on or 1 ulp from an edge, or a patch/bin without in-range object. "
     "Distinct: canonical JSON of the case."
 )
@@ -37,7 +39,12 @@ EDGE_SETS = {
     "thorough": [[0.1, 0.3], [0.1, 0.2, 0.4], [0.1, 0.2, 0.3, 0.4], [0.25, 0.5, 1.0, 1.75],
                  [0.01, 0.02, 0.05]],
 }
-PRIMES = [2, 3, 5, 7, 11, 13, 17, 19, 23, 29, 31, 37, 41, 43, 47, 53, 59, 61, 67, 71, 73, 79]
+PRIMES = [q for q in range(2, 1200) if all(q % r for r in range(2, int(q ** 0.5) + 1))]
+# equal-width binnings as the configuration generates them (np.linspace): edges are not multiples of the width
+LINEAR_SETS = {
+    "quick": [(0.1, 1.0, 9), (0.01, 3.0, 30)],
+    "thorough": [(0.1, 1.0, 9), (0.01, 3.0, 30), (0.0, 1.0, 10), (0.07, 1.3, 7), (0.2, 2.3, 21)],
+}
 
 
 def alphabet(edges):
@@ -69,8 +76,24 @@ def cases(tier, seed):
                                 pid=[i % 2 for i in range(len(alpha))]))
                 out.append(dict(base, layout="full-split", z=alpha,
                                 pid=[int(i >= len(alpha) // 2) for i in range(len(alpha))]))
+                out.append(dict(base, layout="full", z=alpha, pid=[i % 2 for i in range(len(alpha))], W=2))
                 for z0, z1 in itertools.product(alpha, alpha):
                     out.append(dict(base, layout="pair", z=[z0, z1], pid=[0, 1]))
+    for zmin, zmax, nb in LINEAR_SETS[tier]:
+        edges = np.linspace(zmin, zmax, nb + 1).tolist()
+        alpha = alphabet(edges)
+        below = edges[0] / 10.0 if edges[0] > 0 else -0.1
+        alpha[-2] = below
+        for closed in ("right", "left"):
+            for weighted in (False, True):
+                base = dict(edges=edges, closed=closed, weighted=weighted, linear=[zmin, zmax, nb])
+                for z in alpha:
+                    if weighted and tier == "quick":
+                        break
+                    out.append(dict(base, layout="single", z=[z, below], pid=[0, 1]))
+                out.append(dict(base, layout="full", z=alpha, pid=[i % 2 for i in range(len(alpha))]))
+                out.append(dict(base, layout="full-split", z=alpha,
+                                pid=[int(i >= len(alpha) // 2) for i in range(len(alpha))]))
     # simplest first: fewer objects, fewer bins
     out.sort(key=lambda c: (len(c["z"]), len(c["edges"])))
     return out
@@ -116,6 +139,12 @@ def run_case(case):
     unk = yawx.make_catalog(d + "/unk", ra, dec, w=w, pid=pid)
     config = yaw.Configuration.create(rmin=0.001, rmax=1.0, unit="deg", edges=edges.tolist(),
                                       closed=closed)
+    if "linear" in case:
+        zmin, zmax, nb = case["linear"]
+        generated = yaw.Configuration.create(rmin=0.001, rmax=1.0, unit="deg", zmin=zmin, zmax=zmax, num_bins=nb,
+                                             closed=closed)
+        if np.array_equal(generated.binning.edges, edges):
+            config = generated  # the generated binning itself (same edges bit for bit)
     viols = []
 
     def check(consumer, fn):
@@ -170,6 +199,27 @@ def run_case(case):
         # (order of the jackknife samples is C03's business, not checked here)
         return [("data", h.data, tot)]
 
+    W = case.get("W", 1)
+    if W > 1:
+        # the same consumers with the work done by pool workers: the binning crosses a process boundary (pickled);
+        # one execution in submission order on the virtual pool (orders are C05's business)
+        from vlib import vmp
+
+        def pooled(fn):
+            def run():
+                vmp.install(workers=W)
+                try:
+                    ex = vmp.execute(fn)
+                finally:
+                    vmp.uninstall()
+                    yawx.sequential()
+                if ex["verdict"] != "ok":
+                    raise RuntimeError(f"virtual pool: {ex['verdict']} {ex['deadlock']}")
+                if ex["exc"] is not None:
+                    raise ex["exc"]
+                return ex["value"]
+            return run
+        trees, auto, cross, hist = pooled(trees), pooled(auto), pooled(cross), pooled(hist)
     check("build_trees", trees)
     check("autocorrelate", auto)
     check("crosscorrelate", cross)
